@@ -68,33 +68,34 @@ func writeEvidence(prop, tier string, seed uint64, a *agg, bt *builtTree, lcs []
 		}
 	}
 	cov := map[string]any{
-		"evaluations":                    total,
-		"distinct_nontrivial":            len(a.ntSigs),
-		"rule":                           propText[prop].rule,
-		"samples":                        samples,
-		"nontrivial_runs":                a.nontrivial,
-		"distinct_signatures_all_runs":   len(a.allSigs),
-		"runs_per_hour":                  perHour(total),
-		"scheduler_steps":                a.steps,
-		"scheduler_steps_per_hour":       perHour(a.steps),
-		"library_operations":             a.ops,
-		"simulated_time":                 "none: the library has no clock, timer or deadline; progress is measured in logical scheduler steps",
-		"lanes":                          laneDesc,
-		"fault_kinds_fired":              faults,
-		"environment_counters":           a.counters,
-		"probes_hit":                     a.probes,
-		"probes_at_zero":                 zeroProbes,
-		"context_switch_site_pairs":      map[string]any{"count": len(pairs), "pairs": pairs, "meaning": "ordered pairs (site executed by the previous task > site executed by the next task) observed at a task switch"},
-		"tallies":                        a.tallies,
-		"runs_hitting_step_cap":          a.overruns,
-		"worker_processes_parallel":      nworkers,
-		"build_seconds":                  bt.buildS,
-		"tree_digest":                    treeDigest(),
-		"sync_pool_references_rewritten": bt.rw.Rewritten,
-		"real_code":                      []string{"every line of pipelined.dev/signal from /repo's working tree (only the identifier sync.Pool is re-pointed to the stub)", "the Go race runtime (race lanes)", "Go runtime allocator and goroutines (tasks are real goroutines, released one at a time)"},
-		"stubbed":                        []string{"sync.Pool -> simrt.Pool: executable contract with seeded pick policy and putdrop/miss/gc faults (lane real-sync.Pool delegates to the real pool)", "goroutine scheduling order: seeded cooperative scheduler, switch points before/after every library call", "garbage collection of pooled objects: seeded two-stage gc event"},
-		"technique":                      propText[prop].technique,
-		"exhaustive":                     false,
+		"evaluations":                        total,
+		"distinct_nontrivial":                len(a.ntSigs),
+		"rule":                               propText[prop].rule,
+		"samples":                            samples,
+		"nontrivial_runs":                    a.nontrivial,
+		"distinct_signatures_all_runs":       len(a.allSigs),
+		"runs_per_hour":                      perHour(total),
+		"scheduler_steps":                    a.steps,
+		"scheduler_steps_per_hour":           perHour(a.steps),
+		"library_operations":                 a.ops,
+		"simulated_time":                     fmt.Sprintf("%.1f simulated seconds on the runs' simulated clocks (per-run tick 1us..1s per scheduler step plus seeded clock jumps). The pinned library never reads a clock (time is used for a type only), so for it progress is measured in logical scheduler steps; the clock matters only for modified trees (DESIGN.md 2.6)", float64(a.counters["simulated_microseconds"])/1e6),
+		"lanes_isolated_one_process_per_run": isolatedLanes,
+		"lanes":                              laneDesc,
+		"fault_kinds_fired":                  faults,
+		"environment_counters":               a.counters,
+		"probes_hit":                         a.probes,
+		"probes_at_zero":                     zeroProbes,
+		"context_switch_site_pairs":          map[string]any{"count": len(pairs), "pairs": pairs, "meaning": "ordered pairs (site executed by the previous task > site executed by the next task) observed at a task switch"},
+		"tallies":                            a.tallies,
+		"runs_hitting_step_cap":              a.overruns,
+		"worker_processes_parallel":          nworkers,
+		"build_seconds":                      bt.buildS,
+		"tree_digest":                        treeDigest(),
+		"sync_pool_references_rewritten":     bt.rw.Rewritten,
+		"real_code":                          []string{"every line of pipelined.dev/signal from /repo's working tree (only the identifier sync.Pool is re-pointed to the stub)", "the Go race runtime (race lanes)", "Go runtime allocator and goroutines (tasks are real goroutines, released one at a time)"},
+		"stubbed":                            []string{"sync.Pool -> simrt.Pool: executable contract with seeded pick policy and putdrop/miss/gc faults (lane real-sync.Pool delegates to the real pool)", "goroutine scheduling order: seeded cooperative scheduler, switch points before/after every library call and at inner points before every library statement, stall faults", "garbage collection of pooled objects: seeded two-stage gc event; finalizers (if a modified library registers any) run as a task at that event", "blocking operations, goroutines, clock and timers a modified library may use: cooperative / simulated (inert on the pinned tree)"},
+		"technique":                          propText[prop].technique,
+		"exhaustive":                         false,
 	}
 	if len(known.entries) > 0 || len(known.fixed) > 0 {
 		cov["known_findings_file"] = map[string]any{"open_entries": len(known.entries), "fixed_entries": known.fixed}
